@@ -65,7 +65,12 @@ def gen_universe(rng):
     for t in light_ids:
         U.append({"k": "light", "id": t})
     for _ in range(rng.randint(1, 2)):
-        U.append({"k": "inter", "id": rid(), "incs": [rng.randint(1, hi + 3) for _ in range(rng.randint(1, 3))]})
+        incs = [rng.randint(1, hi + 3) for _ in range(rng.randint(1, 3))]
+        lan = [u["id"] for u in U if u["k"] == "lanelet"]
+        # the incoming elements are fed by lanelets of the universe (in half of the intersections)
+        feeds = {str(j): sorted(set(rng.sample(lan, rng.randint(1, min(2, len(lan)))))) for j in incs} \
+            if rng.random() < 0.5 else {}
+        U.append({"k": "inter", "id": rid(), "incs": incs, "feeds": feeds})
     # obstacle ids may be any integer (the library's own tests use 0, -5, -50): one universe in three draws them from
     # a range that contains zero and negative numbers
     lo = rng.choice([1, 1, -1, -3])
@@ -85,7 +90,8 @@ def build(u):
     if k == "light":
         return TrafficLight(i, V([0., 0.]), TrafficLightCycle([TrafficLightCycleElement(TrafficLightState.RED, 2)]))
     if k == "inter":
-        return Intersection(i, [IntersectionIncomingElement(j, set(), set(), set(), set()) for j in u["incs"]])
+        return Intersection(i, [IntersectionIncomingElement(j, set(u.get("feeds", {}).get(str(j), [])), set(), set(), set())
+                                for j in u["incs"]])
     shape = Rectangle(2.0, 1.0)
     init = InitialState(time_step=0, position=V([0., 0.]), orientation=0.0, velocity=0.0, acceleration=0.0,
                         yaw_rate=0.0, slip_angle=0.0)
